@@ -29,3 +29,34 @@ Definition c09_decode_last (s : str) : N * nat := utf8_decode_last_rev (rev s).
 Definition c09_encode (r : N) : str := utf8_encode r.
 Definition c09_required_hash_count (dq : bool) (s : str) : nat :=
   required_hash_count (if dq then ch_dq else ch_sq) s.
+
+(* decidable equality of results, used by the vm_compute cross-check of the
+   extraction (build/<run>/xcheck.v): the extracted OCaml model and the Coq
+   kernel's evaluation of the same definitions must agree *)
+Definition err_code (e : err) : N :=
+  match e with
+  | ESyntax => 0 | EMissingOpeningNewline => 1 | EMissingClosingNewline => 2 | EUnmatchedQuote => 3
+  | ESurrogate => 4 | EInvalidUTF8 => 5 | EEscapedLastNewline => 6 | EInvalidWhitespace => 7
+  end.
+
+Fixpoint str_eqb (a b : str) : bool :=
+  match a, b with
+  | [], [] => true
+  | x :: a', y :: b' => N.eqb x y && str_eqb a' b'
+  | _, _ => false
+  end.
+
+Definition outcome_eqb (a b : outcome str) : bool :=
+  match a, b with
+  | Ok x, Ok y => str_eqb x y
+  | Err e1, Err e2 => N.eqb (err_code e1) (err_code e2)
+  | Panic, Panic => true
+  | OutOfFuel, OutOfFuel => true
+  | _, _ => false
+  end.
+
+Definition c09_xcheck_unquote (cases : list (str * outcome str)) : bool :=
+  forallb (fun c => outcome_eqb (c09_unquote_impl (fst c)) (snd c)) cases.
+
+Definition c09_xcheck_quote (cases : list (tbl * form * str * str)) : bool :=
+  forallb (fun c => match c with (t, f, s, q) => str_eqb (c09_quote t f s) q end) cases.
